@@ -10,7 +10,8 @@ for d in sorted(glob.glob(os.path.join(ROOT, "seeded", "*", "meta.json"))):
     for c in m.get("checks_run", []):
         pid, ex, nv = c.split(":")
         checks.append(f"{pid} {'**VIOLATION**' if ex == 'exit=1' else 'passes'}")
-    rows.append((name, m.get("breaks_property", "?"), m.get("summary", "").replace("|", "/")[:230], m.get("needs", "").replace("|", "/")[:260], ", ".join(checks)))
+    rows.append((name, m.get("breaks_property", "?"), m.get("summary", "").replace("|", "/")[:230], m.get("needs", "").replace("|", "/")[:260],
+                 ", ".join(checks) + ((" - " + m["note"]) if m.get("note") else "")))
 out = ["# Seeded changes", "",
        "Each directory holds a change to scikit-hep/vector produced by an independent sub-agent that was given only the text of one",
        "property and a scratch worktree (nothing from /verif): `patch.diff`, the agent's demonstration `demo.py` (passes without the change, fails",
